@@ -9,6 +9,6 @@ git -C /repo worktree add -q --detach $WT HEAD || exit 2
 (cd $WT && git apply "$SEED/patch.diff") || { echo "PATCH DOES NOT APPLY"; git -C /repo worktree remove --force $WT; exit 2; }
 for c in "$@"; do
   echo "== $c on $(basename $(dirname $SEED))/$(basename $SEED)"
-  (cd /verif && VERIF_REPO=$WT ./check $c quick 2>&1 | grep -E "VIOLATION|KNOWN|violation:|corr:|\] quick" | cut -c1-400 | head -8)
+  (cd /verif && VERIF_REPO=$WT ./check $c quick 2>&1 | grep -E "^VIOLATION|^KNOWN|\] (quick|thorough)" | cut -c1-300 | head -12)
 done
 git -C /repo worktree remove --force $WT
